@@ -21,9 +21,10 @@ func (c HCus) Error() string { return "c" + strconv.Itoa(c.N) }
 
 var stopErrs = []error{nil, errors.New("stop-1"), errors.New("stop-2")}
 
-// Stop and Fatal print the marker "S" first: nothing may be printed after it
-func hStop(env native.Env, k int)  { env.Println("S"); env.Stop(stopErrs[k]) }
-func hFatal(env native.Env, v int) { env.Println("S"); env.Fatal(v) }
+// Stop and Fatal print a marker first ("S s<k>", "S f<v>"): the run must end with that very call —
+// nothing may be printed after it and Run must report it, whatever panics are active
+func hStop(env native.Env, k int)  { env.Println("S", "s"+strconv.Itoa(k)); env.Stop(stopErrs[k]) }
+func hFatal(env native.Env, v int) { env.Println("S", "f"+strconv.Itoa(v)); env.Fatal(v) }
 func hPanic(v int)                 { panic(v) }
 func hPanicS(v int)                { panic("s" + strconv.Itoa(v)) }
 func hPanicE(v int)                { panic(hErr(v)) }
@@ -112,8 +113,8 @@ func eventsOf(text string) (string, bool) {
 	for _, l := range strings.Split(text, "\n") {
 		switch {
 		case l == "":
-		case l == "S":
-			ev = append(ev, "S")
+		case len(l) > 3 && strings.HasPrefix(l, "S ") && (l[2] == 's' || l[2] == 'f') && isDigits(l[3:]):
+			ev = append(ev, "S"+l[2:])
 		case l == "R nil":
 			ev = append(ev, "rn")
 		case len(l) > 4 && strings.HasPrefix(l, "R ") && l[3] == ' ':
